@@ -41,11 +41,18 @@ EXPLANATION = (
     "R-tr-memo-scope -- no class- / module-level container is written by translator code unless keyed by the described object; "
     "R-tr-ident-intact -- identifiers in templates may be padded but never truncated (format precision, constant-length prefix); "
     "R-tr-name-scope -- a bare name resolves as loop variable > known temporary > new temporary (store only); "
-    "R-tr-dims-order -- unpacked dimensions are declared outermost array first, the order in which accesses index the name; "
+    "R-tr-dims-order -- unpacked dimensions are declared outermost array first, the order in which accesses index the name; the "
+    "recursion into a nested interface hands down translated array types that carry every enclosing dimension (evaluated on tokens); "
     "R-tr-const-inline -- a back-end that declares no constants inlines or rejects every constant-array access; "
     "R-tr-ifc-source -- every interface flattener iterates get_all_properties_packed (nested interfaces included); "
     "R-tr-range -- range(a) / range(a,b) / range(a,b,c) are read as (0,a,1) / (a,b,1) / (a,b,c); "
     "R-tr-block-state -- the closure table a per-block visitor fills in enter() is created afresh there; "
+    "R-tr-rtype-eq -- RTLIR type equality (which admits a list as an array whose elements share the declaration of element 0) holds "
+    "only for identically declared elements: Component over port lists, InterfaceView over class and ports, Port/Wire/Const/Array "
+    "over every declaring member (evaluated by interpreting __eq__ on abstract objects); "
+    "R-tr-port-skip -- gen_mapped_ports leaves out clk iff not has_clk and reset iff not has_reset (4 flag combinations x 3 ports); "
+    "R-tr-dims-elem -- a dimension list and a type taken from one array and handed on together describe that array "
+    "(get_sub_dtype with all dimensions; get_next_dim_type peels one), evaluated on a [2][3] array; "
     "R-layout-agree -- struct literals / concat / struct construction put the first field (argument) most significant and "
     "packed-array element 0 least significant. "
     "NOT decided: cycle-for-cycle behavioural equivalence of arbitrary designs, syntactic validity of arbitrary emitted text "
@@ -63,12 +70,12 @@ RULES = [partial(f, backend=BACKEND) for f in (
     T.rule_hooks, T.rule_handlers, T.rule_optable, T.rule_assign, T.rule_slice, T.rule_width_cast, T.rule_conn,
     T.rule_sigexpr, T.rule_for, T.rule_modname, T.rule_constcache, T.rule_layout, T.rule_index_queue, T.rule_dedup_scope,
     T.rule_loop_state, T.rule_memo_scope, T.rule_ident_intact, T.rule_name_scope, T.rule_dims_order, T.rule_const_inline,
-    T.rule_ifc_source, T.rule_range_args, T.rule_block_state)]
+    T.rule_ifc_source, T.rule_range_args, T.rule_block_state, T.rule_rtype_eq, T.rule_port_skip, T.rule_dims_elem)]
 for _f, _g in zip(RULES, (T.rule_hooks, T.rule_handlers, T.rule_optable, T.rule_assign, T.rule_slice, T.rule_width_cast,
                           T.rule_conn, T.rule_sigexpr, T.rule_for, T.rule_modname, T.rule_constcache, T.rule_layout,
                           T.rule_index_queue, T.rule_dedup_scope, T.rule_loop_state, T.rule_memo_scope, T.rule_ident_intact,
                           T.rule_name_scope, T.rule_dims_order, T.rule_const_inline, T.rule_ifc_source, T.rule_range_args,
-                          T.rule_block_state)):
+                          T.rule_block_state, T.rule_rtype_eq, T.rule_port_skip, T.rule_dims_elem)):
     _f.__name__ = _g.__name__
 
 
@@ -89,9 +96,10 @@ def rule_param_record(repo):
     (R-C13-name)."""
     from rules.c13 import rule_name
     res = rule_name(repo)
-    # only the argument-record clause (Component._construct / _gen_parameters) is needed here; the character set of names
-    # (C13's known finding D8) concerns syntactic validity, which C03 does not decide
-    keep = lambda fn: '_construct' in fn or '_gen_parameters' in fn
+    # the argument-record clause (Component._construct / _gen_parameters), and the character set of the module name
+    # (get_component_unique_name): "the emitted text is always syntactically valid" is part of C03, so C13's known finding
+    # D13 (str() of tuples / negative numbers / strings puts , ( ' - = into module names) is listed for C03 as well
+    keep = lambda fn: '_construct' in fn or '_gen_parameters' in fn or 'get_component_unique_name' in fn
     res.findings = [f for f in res.findings if keep(f.func)]
     res.instances = [i for i in res.instances if i['verdict'] != 'VIOLATED' or keep(i['function'])]
     return res
@@ -113,6 +121,20 @@ def _m(name, file, old, new, rule=None, count=1):
 
 
 MUTANTS = [
+    # round-7 kinds: boundary slip / wrong one of two similar names / and-or-not slip / wrong similar API
+    _m('interface-view-eq-name-only', T.RTYPE, "    return isinstance(other, InterfaceView) and s.name == other.name and \\\n           s.properties == other.properties", "    return isinstance(other, InterfaceView) and s.name == other.name", 'R-tr-rtype-eq'),
+    _m('interface-view-eq-name-or-ports', T.RTYPE, "    return isinstance(other, InterfaceView) and s.name == other.name and \\\n           s.properties == other.properties", "    return isinstance(other, InterfaceView) and s.name == other.name or \\\n           s.properties == other.properties", 'R-tr-rtype-eq'),
+    _m('component-eq-length-or-ports', T.RTYPE, "    return (len(u)==len(v)) and all(_u == _v for _u, _v in zip(u, v))", "    return (len(u)==len(v)) or all(_u == _v for _u, _v in zip(u, v))", 'R-tr-rtype-eq'),
+    _m('component-eq-ignores-length', T.RTYPE, "    return (len(u)==len(v)) and all(_u == _v for _u, _v in zip(u, v))", "    return all(_u == _v for _u, _v in zip(u, v))", 'R-tr-rtype-eq'),
+    _m('component-eq-any-port', T.RTYPE, "    return (len(u)==len(v)) and all(_u == _v for _u, _v in zip(u, v))", "    return (len(u)==len(v)) and any(_u == _v for _u, _v in zip(u, v))", 'R-tr-rtype-eq'),
+    _m('array-eq-ignores-dimensions', T.RTYPE, "    if s.dim_sizes != other.dim_sizes: return False\n", "", 'R-tr-rtype-eq'),
+    _m('port-eq-direction-or-dtype', T.RTYPE, "    return isinstance(other, Port) and s.dtype == other.dtype and \\\n           s.direction == other.direction", "    return isinstance(other, Port) and s.dtype == other.dtype or \\\n           s.direction == other.direction", 'R-tr-rtype-eq'),
+    _m('clk-reset-skips-merged', UTIL, "    if not has_clk and name == 'clk':      continue\n    if not has_reset and name == 'reset':  continue\n", "    if name in ( 'clk', 'reset' ) and not ( has_clk and has_reset ):  continue\n", 'R-tr-port-skip', count=1),
+    _m('reset-skip-tests-has-clk', UTIL, "    if not has_reset and name == 'reset':  continue\n", "    if not has_clk and name == 'reset':  continue\n", 'R-tr-port-skip'),
+    _m('clk-skipped-when-present', UTIL, "    if not has_clk and name == 'clk':      continue\n", "    if has_clk and name == 'clk':      continue\n", 'R-tr-port-skip'),
+    _m('struct-instance-packed-array-peels-one-dimension', VS2, "        n_dim = Type.get_dim_sizes()\n        sub_dtype = Type.get_sub_dtype()", "        n_dim = Type.get_dim_sizes()\n        sub_dtype = Type.get_next_dim_type()", 'R-tr-dims-elem'),
+    _m('nested-ifc-recursion-drops-nested-dims', VS4, "                  f'{ifc_id}__{port_id}', port_rtype, combined_ifc_array_type,", "                  f'{ifc_id}__{port_id}', port_rtype, ifc_array_type,", 'R-tr-dims-order'),
+    _m('nested-ifc-recursion-passes-nested-dims-only', VS4, "                  f'{ifc_id}__{port_id}', port_rtype, combined_ifc_array_type,", "                  f'{ifc_id}__{port_id}', port_rtype, port_array_type,", 'R-tr-dims-order'),
     # R-tr-hooks
     _m('hook-override-renamed', VS2, "def rtlir_tr_packed_index( s, base_signal, index, status ):",
        "def rtlir_tr_packed_idx( s, base_signal, index, status ):", 'R-tr-hooks'),
@@ -357,6 +379,13 @@ MUTANTS = [
 ]
 
 EQUIV = [
+    _m('component-eq-compares-the-lists', T.RTYPE, "    return (len(u)==len(v)) and all(_u == _v for _u, _v in zip(u, v))", "    return list(u) == list(v)"),
+    _m('component-eq-early-return-on-length', T.RTYPE, "    return (len(u)==len(v)) and all(_u == _v for _u, _v in zip(u, v))", "    if len(u) != len(v):\n      return False\n    for _u, _v in zip(u, v):\n      if _u != _v:\n        return False\n    return True"),
+    _m('array-eq-single-expression', T.RTYPE, "    if not isinstance( other, Array ): return False\n    if s.dim_sizes != other.dim_sizes: return False\n    return s.sub_type == other.sub_type", "    return isinstance( other, Array ) and s.dim_sizes == other.dim_sizes and s.sub_type == other.sub_type"),
+    _m('clk-reset-skip-as-one-condition', UTIL, "    if not has_clk and name == 'clk':      continue\n    if not has_reset and name == 'reset':  continue\n", "    if ( name == 'clk' and not has_clk ) or ( name == 'reset' and not has_reset ):\n      continue\n"),
+    _m('clk-reset-skip-via-table', UTIL, "    if not has_clk and name == 'clk':      continue\n    if not has_reset and name == 'reset':  continue\n", "    wanted = { 'clk' : has_clk, 'reset' : has_reset }\n    if name in wanted and not wanted[ name ]:\n      continue\n"),
+    _m('struct-instance-packed-array-inline-accessors', VS2, "        n_dim = Type.get_dim_sizes()\n        sub_dtype = Type.get_sub_dtype()\n        _ret = _gen_packed_array( sub_dtype, n_dim, field )", "        _ret = _gen_packed_array( Type.get_sub_dtype(), Type.get_dim_sizes(), field )"),
+    _m('nested-ifc-combined-array-type-renamed', VS4, "combined_ifc_array_type", "nested_array_type", count=2),
     _m('count-stmts-as-accumulator-loop', VB2, "    return sum( len( stmt.targets ) if isinstance( stmt, bir.Assign ) else 1\n                for stmt in stmts )",
        "    n_stmts = 0\n    for stmt in stmts:\n      if isinstance( stmt, bir.Assign ):\n        n_stmts += len( stmt.targets )\n      else:\n        n_stmts += 1\n    return n_stmts"),
     _m('sext-arith-sized-by-operand-width', VB1, "      sign = f\"{target_nbits}'d{1 << last_bit}\"", "      sign = f\"{current_nbits}'d{1 << last_bit}\""),
